@@ -7,29 +7,48 @@ From TL Require Import Lib.Base Model.CollectStr Model.Glob Gen.CollectGen Model
 Definition glob_ideal (q : cquirks) : Prop :=
   q_dirpat_prefix q = false /\ q_dirpat_filename q = false /\ q_doublestar_needs_dir q = false.
 
-Lemma matches_off q path pat : q_doublestar_needs_dir q = false ->
-  matches q path pat = matches_core q path pat || (starts_with pat "**/" && matches_core q path (sdrop 3 pat)).
-Proof. intro H. unfold matches. now rewrite H. Qed.
+(* the non-recursive part of matches_pattern *)
+Definition matches_core (q : cquirks) (path pattern : string) : bool :=
+  if ends_with pattern "/" then match_dir q path pattern else fnm path pattern || fnm (path_norm path) pattern.
+
+Lemma matches_fuel_step q k path pat :
+  matches_fuel q (S k) path pat = (starts_with pat "**/" && matches_fuel q k path (sdrop 3 pat)) || matches_core q path pat.
+Proof. cbn [matches_fuel]. now rewrite matches_pattern_gen_spec. Qed.
 
 Lemma matches_nodstar q path pat : starts_with pat "**/" = false -> matches q path pat = matches_core q path pat.
-Proof. intro H. unfold matches. rewrite H, andb_false_r. cbn [andb]. now rewrite orb_false_r. Qed.
+Proof.
+  intro H. unfold matches. destruct (q_doublestar_needs_dir q).
+  - now rewrite matches_pattern_gen_spec, H.
+  - now rewrite matches_fuel_step, H.
+Qed.
+
+Lemma length_la s : List.length (la s) = String.length s.
+Proof. induction s as [|c s IH]; [reflexivity|]. rewrite la_cons. cbn. now rewrite IH. Qed.
+
+(* one leading "**/" : the pattern itself or the pattern without the prefix *)
+Lemma matches_off q path pat : q_doublestar_needs_dir q = false -> starts_with (sdrop 3 pat) "**/" = false ->
+  matches q path pat = matches_core q path pat || (starts_with pat "**/" && matches_core q path (sdrop 3 pat)).
+Proof.
+  intros H Hin. unfold matches. rewrite H, matches_fuel_step, orb_comm. f_equal.
+  destruct (starts_with pat "**/") eqn:E; [|reflexivity]. cbn [andb].
+  apply starts_with_spec in E. destruct E as [r E].
+  assert (L : String.length pat = S (S (S (List.length r)))).
+  { rewrite <- length_la, E. reflexivity. }
+  rewrite L, matches_fuel_step, Hin. reflexivity.
+Qed.
 
 Lemma match_dir_off q path pat : q_dirpat_prefix q = false -> q_dirpat_filename q = false ->
   match_dir q path pat
   = smem (rstrip_chars pat "/") (removelast (path_parts path)) || fnm path (rstrip_chars pat "/" ++ "/*")%string.
-Proof. intros H1 H2. unfold match_dir. now rewrite H1, H2. Qed.
+Proof. intros H1 H2. unfold match_dir. rewrite H1, H2. cbn [negb andb]. apply matches_directory_pattern_gen_spec. Qed.
 
 Lemma core_file q path pat : ends_with pat "/" = false -> path_norm path = path -> matches_core q path pat = fnm path pat.
-Proof.
-  intros H1 H2. unfold matches_core. rewrite matches_pattern_gen_spec, H1, H2. now destruct (fnm path pat).
-Qed.
+Proof. intros H1 H2. unfold matches_core. rewrite H1, H2. now destruct (fnm path pat). Qed.
 
 Lemma core_dir q path pat : q_dirpat_prefix q = false -> q_dirpat_filename q = false -> ends_with pat "/" = true ->
   matches_core q path pat
   = smem (rstrip_chars pat "/") (removelast (path_parts path)) || fnm path (rstrip_chars pat "/" ++ "/*")%string.
-Proof.
-  intros H1 H2 H3. unfold matches_core. rewrite matches_pattern_gen_spec, H3. now apply match_dir_off.
-Qed.
+Proof. intros H1 H2 H3. unfold matches_core. rewrite H3. now apply match_dir_off. Qed.
 
 Lemma or_absorb (a b : bool) : (a = true -> b = true) -> a || b = b.
 Proof. destruct a, b; intro H; try reflexivity. now specialize (H eq_refl). Qed.
@@ -116,14 +135,17 @@ Section Forms.
   Lemma form_any_suffix s : nonempty s = true -> has_char slash s = false -> no_special s = true ->
     matches q path ("**/*" ++ s) = ends_with (last comps "") s.
   Proof.
-    intros Hne Hsl Hsp. destruct Hq as [_ [_ Hd]]. rewrite matches_off by exact Hd.
+    intros Hne Hsl Hsp. destruct Hq as [_ [_ Hd]].
     assert (Hs : no_slash (la s)) by (intro H; apply has_char_In in H; congruence).
     assert (Pl := no_special_plain _ Hsp).
     assert (E : la ("**/*" ++ s) = c_star :: c_star :: slash :: c_star :: la s) by reflexivity.
-    destruct (dstar_yes _ _ E) as [-> ->].
     assert (Es : sa (c_star :: la s) = ("*" ++ s)%string) by (cbn; now rewrite sa_la).
-    rewrite Es. cbn [andb].
     assert (Hne' : la s <> []) by (destruct s; discriminate).
+    assert (Hin : starts_with ("*" ++ s) "**/" = false).
+    { destruct (la s) as [|c r] eqn:L; [congruence|]. apply (not_dstar_star_plain _ c r); [change (la ("*" ++ s)) with (c_star :: la s); now rewrite L|now inversion Pl]. }
+    rewrite matches_off; [|exact Hd|destruct (dstar_yes _ _ E) as [_ ->]; now rewrite Es].
+    destruct (dstar_yes _ _ E) as [-> ->].
+    rewrite Es. cbn [andb].
     assert (H2 : matches_core q path ("*" ++ s) = ends_with (last comps "") s).
     { rewrite core_file; [|apply (ends_with_slash_no _ [c_star] (la s)); [reflexivity|exact Hne'|exact Hs]|exact Hnorm].
       rewrite fnm_star_lit by exact Pl. now apply ends_with_path. }
@@ -167,12 +189,12 @@ Section Forms.
   Lemma form_dirpath d : 2 <= List.length d -> forallb lit_ok d = true -> matches q path (pjoin d ++ "/") = proper_prefix d comps.
   Proof.
     intros Hlen Hd. assert (Hne : d <> []) by (destruct d; [cbn in Hlen; lia|discriminate]).
-    destruct Hq as [Hq1 [Hq2 Hdd]]. rewrite matches_off by exact Hdd.
+    destruct Hq as [Hq1 [Hq2 Hdd]].
     assert (E : la (pjoin d ++ "/") = ljoin (map la d) ++ [slash]) by (now rewrite la_app, la_pjoin).
     destruct (ljoin_head_plain d Hne Hd) as [c [l [Eh Hcp]]].
     assert (Hnd : starts_with (pjoin d ++ "/") "**/" = false).
     { apply (not_dstar_plain_head _ c (l ++ [slash])); [|exact Hcp]. now rewrite E, Eh. }
-    rewrite Hnd. cbn [andb]. rewrite orb_false_r.
+    rewrite matches_nodstar by exact Hnd.
     rewrite core_dir; [|exact Hq1|exact Hq2|exact (ends_with_slash_yes _ _ E)].
     destruct (ljoin_tail d Hne (lit_comps_ok _ Hd)) as [u [v [Euv [Hv Hvs]]]].
     rewrite (rstrip_of _ u v); [|now rewrite E, Euv|exact Hv|exact Hvs].
@@ -200,22 +222,25 @@ Section Forms.
 
   Lemma form_dir n : lit_ok n = true -> matches q path (n ++ "/") = smem n (removelast comps).
   Proof.
-    intro Hn. destruct Hq as [_ [_ Hdd]]. rewrite matches_off by exact Hdd.
+    intro Hn.
     destruct (head_plain _ Hn) as [c [l [Eh Hcp]]].
     assert (Hnd : starts_with (n ++ "/") "**/" = false).
     { apply (not_dstar_plain_head _ c (l ++ [slash])); [|exact Hcp]. now rewrite la_app, Eh. }
-    rewrite Hnd. cbn [andb]. rewrite orb_false_r. now apply core_dirname.
+    rewrite matches_nodstar by exact Hnd. now apply core_dirname.
   Qed.
 
   (* --- "**/" ++ n ++ "/" *)
   Lemma form_any_dir n : lit_ok n = true -> matches q path ("**/" ++ n ++ "/") = smem n (removelast comps).
   Proof.
-    intro Hn. destruct Hq as [Hq1 [Hq2 Hdd]]. rewrite matches_off by exact Hdd.
+    intro Hn. destruct Hq as [Hq1 [Hq2 Hdd]].
     destruct (lit_ok_props _ Hn) as [Hnc Pn]. destruct (comp_ok_props _ Hnc) as [Hne [Hns _]].
     assert (E : la ("**/" ++ n ++ "/") = c_star :: c_star :: slash :: (la n ++ [slash])).
     { change ("**/" ++ n ++ "/")%string with (String c_star (String c_star (String slash (n ++ "/")))). rewrite !la_cons, la_app. reflexivity. }
-    destruct (dstar_yes _ _ E) as [-> ->]. cbn [andb].
     assert (Es : sa (la n ++ [slash]) = (n ++ "/")%string) by (apply la_inj; now rewrite la_sa, la_app).
+    assert (Hin : starts_with (n ++ "/") "**/" = false).
+    { destruct (head_plain _ Hn) as [c [l [Eh Hcp]]]. apply (not_dstar_plain_head _ c (l ++ [slash])); [|exact Hcp]. now rewrite la_app, Eh. }
+    rewrite matches_off; [|exact Hdd|destruct (dstar_yes _ _ E) as [_ ->]; now rewrite Es].
+    destruct (dstar_yes _ _ E) as [-> ->]. cbn [andb].
     rewrite Es, core_dirname by exact Hn. apply or_absorb.
     assert (E' : la ("**/" ++ n ++ "/") = ([c_star; c_star; slash] ++ la n) ++ [slash]) by (rewrite E; reflexivity).
     rewrite core_dir; [|exact Hq1|exact Hq2|exact (ends_with_slash_yes _ _ E')].
@@ -288,13 +313,13 @@ Proof.
   - rewrite andb_true_iff, !negb_true_iff in Hp. destruct Hp as [H1 H2]. now apply form_raw.
 Qed.
 
-(* what the code really does with a directory pattern "n/" (both directory-pattern quirks on):
+(* what the code did with a directory pattern "n/" before 9c8f928 (both directory-pattern flags on):
    n is any component of the path -- the file's own name included -- or the path merely starts with n *)
-Theorem dirpattern_actual q path n :
+Theorem dirpattern_former q path n :
   q_dirpat_prefix q = true -> q_dirpat_filename q = true -> lit_ok n = true ->
   match_dir q path (n ++ "/") = smem n (path_parts path) || starts_with path n.
 Proof.
-  intros H1 H2 Hn. unfold match_dir. rewrite H1, H2. cbn [andb]. rewrite matches_directory_pattern_gen_spec.
+  intros H1 H2 Hn. unfold match_dir. rewrite H1, H2. cbn [negb andb].
   destruct (lit_ok_props _ Hn) as [Hnc Pn]. destruct (comp_ok_props _ Hnc) as [Hne [Hns _]].
   assert (E : rstrip_chars (n ++ "/") "/" = n).
   { rewrite <- (sa_la (n ++ "/")), la_app. change (la "/") with [slash]. rewrite <- (sa_la n) at 2.
